@@ -58,8 +58,11 @@ def norm_origin(scheme, host, port):
 
 
 # ------------------------------------------------------------------ hop alphabet
-STATUS = {"1": 301, "2": 302, "3": 303, "7": 307, "8": 308}
+STATUS = {"1": 301, "2": 302, "3": 303, "7": 307, "8": 308, "0": 300, "4": 304}
 STATUS_CODE = {v: k for k, v in STATUS.items()}
+# 3xx codes that are NOT redirects ("A redirect is a HTTP response with a status code 301, 302,
+# 303, 307 or 308"): answered with a Location all the same, and final by intention
+NOT_REDIRECT = (300, 304)
 
 # form letter -> (description, kind of origin change)
 FORMS = {
@@ -147,6 +150,11 @@ def successor(hops, origin, mode, k):
         return status, None, None
     if form == "z":
         return status, "", None
+    if status in NOT_REDIRECT:
+        # a Location is offered (absolute same / other host, relative, absolute path) but the
+        # answer is final by intention: intended = None
+        loc = (origin_url(o2) + path2) if form in ("a", "h") else (st2 if form == "r" else path2)
+        return status, loc, None
     if form == "a":
         loc = origin_url(origin) + path2
     elif form == "e":
@@ -203,9 +211,13 @@ def chains(alphabet, max_len, min_len=0):
                 c2 = c + h
                 if n >= min_len:
                     yield c2
-                if h[1] not in TERMINAL_FORMS:
+                if not is_terminal_hop(h):
                     nxt.append(c2)
         level = nxt
+
+
+def is_terminal_hop(code):
+    return code[1] in TERMINAL_FORMS or STATUS[code[0]] in NOT_REDIRECT
 
 
 def hopcodes(statuses, forms):
@@ -248,7 +260,7 @@ class ChainServer(Server):
         hdrs = [("X-Hop", "%d" % k)]
         if loc is not None:
             hdrs.append(("Location", loc))
-        return [response(status, b"redirect-body", headers=hdrs)]
+        return [response(status, b"" if status == 304 else b"redirect-body", headers=hdrs)]
 
 
 def observed_requests(net):
